@@ -674,6 +674,19 @@ func c08Run(w *W, c Case) {
 			}
 		}
 	}
+	// (f) 29 February in leap years (year stepping from a leap day), (g) a late-rat-hour moment on the day whose
+	// pillar index is y mod 60, so that over the sampled years every day pillar is walked at 23:xx
+	if ref.IsLeap(y) && (!w.Quick || y%2 == 0) {
+		roots = append(roots, ref.Stamp{Y: y, M: 2, D: 29, H: 9 + y%12, Mi: 10})
+	}
+	{
+		j0 := ref.JDN(y, 3, 1) + rng.Intn(200)
+		j0 += modI(y%60-ref.DayPair(j0), 60)
+		gy, gm, gd := ref.FromJDN(j0)
+		if gy == y {
+			roots = append(roots, ref.Stamp{Y: gy, M: gm, D: gd, H: 23, Mi: rng.Intn(60), S: rng.Intn(60)})
+		}
+	}
 	if !w.Quick {
 		for i := 0; i < 4; i++ {
 			st := randStamp(rng)
